@@ -8,6 +8,8 @@ Streams (id prefix):
   w  random well-formed-looking expressions (groups, nested expressions, side effects, conditionals, lists, access chains)
   s  random token soups over ALL TokenType variants (uniform, and guided by the composition table so they survive longer)
 __main__: generates, runs the Rust harness and the Lean driver, prints the number of cases / disagreements.
+  --trees: C04 / C02 checks instead: `gen_wellformed` (stream p + unmutated stream w inputs that the real `parse` accepts),
+  `check_trees` (implementation node dump -> verified checker TREECHK, tree compared with the reference parser REFPARSE).
 """
 import itertools
 import os
@@ -266,7 +268,7 @@ def mutate(rng, toks, all_types):
     return toks
 
 
-def gen_wellformed(seed, tier):
+def gen_expressions(seed, tier, mutated=True):
     rng = random.Random(seed * 104729 + 11)
     g = ExprGen(rng)
     all_types = list(tables()['get_definition'].keys())
@@ -281,7 +283,7 @@ def gen_wellformed(seed, tier):
             toks = ([tok('Whitespace')] if rng.random() < 0.5 else [tok('Subexpression')]) + toks
         if rng.random() < 0.15:
             toks = toks + ([tok('Whitespace')] if rng.random() < 0.5 else [tok('Subexpression')])
-        if rng.random() < 0.35:
+        if mutated and rng.random() < 0.35:
             toks = mutate(rng, toks, all_types)
         rows.append(['PARSE', f'w{n}', *toks])
         n += 1
@@ -346,7 +348,7 @@ def gen_soups(seed, tier):
     return rows
 
 
-STREAMS = [('e', gen_exhaustive), ('p', gen_pairs), ('w', gen_wellformed), ('s', gen_soups)]
+STREAMS = [('e', gen_exhaustive), ('p', gen_pairs), ('w', gen_expressions), ('s', gen_soups)]
 
 
 def gen_cases(seed, tier='quick', streams=None):
@@ -356,6 +358,70 @@ def gen_cases(seed, tier='quick', streams=None):
             continue
         rows += fn(seed, tier)
     return rows
+
+
+# ------------------------------------------------------------------ accepted inputs + C04 / C02 checks
+
+def gen_wellformed(seed, tier='quick'):
+    """stream p (operator pairs / triples around atoms) and unmutated stream w expressions that the real `parse`
+    accepts (rows ['PARSE', id, tok..])"""
+    rows = gen_pairs(seed, tier) + gen_expressions(seed, tier, mutated=False)
+    impl = vlib.run_impl(rows, 'parsewf')
+    return [c for c in rows if impl.get(c[1], '').startswith('ok')]
+
+
+def check_trees(cases, build=True):
+    """C04 / C02 on the real implementation: run PARSE (`!tokidx`) on the implementation, feed its own node dump to the
+    verified checker (TREECHK) and compare `toTree(impl)` with the reference parser (REFPARSE).
+    Returns (classes: dict name -> list of (case, detail)), counts)."""
+    tagged = [c[:2] + ['!tokidx'] + c[2:] for c in cases]
+    impl = vlib.run_impl(tagged, 'trees')
+    chk, ref, bld = [], [], []
+    for c in cases:
+        r = impl.get(c[1], '')
+        if not r.startswith('ok root='):
+            continue
+        parts = r.split('\t')
+        root = parts[0][len('ok root='):]
+        chk.append(['PARSE', c[1], '!treechk', root, str(len(parts) - 1)] + parts[1:] + c[2:])
+        ref.append(['PARSE', c[1], '!refparse'] + c[2:])
+        bld.append(['BUILD', c[1], 'simple', '0'] + c[2:])
+    chkres = vlib.run_model(chk, 'treechk')
+    refres = vlib.run_model(ref, 'refparse')
+    classes = {}
+
+    def add(k, c, detail):
+        classes.setdefault(k, []).append((c, detail))
+    need_build = []
+    for c in cases:
+        i = c[1]
+        if i not in chkres:
+            add('impl-rejects', c, impl.get(i))
+            continue
+        fields = dict(kv.split('=', 1) for kv in chkres[i].split(' ', 5) if '=' in kv)
+        rr = refres[i]
+        if fields.get('proper') != 'true':
+            add('C04:improper', c, impl[i])
+            need_build.append(c)
+            continue
+        if fields.get('inorder_sorted') != 'true':
+            add('C04:inorder-not-in-source-order', c, chkres[i])
+        if fields.get('covers_significant') != 'true':
+            add('C04:coverage', c, chkres[i])
+        if rr.startswith('ok '):
+            if rr[3:] == fields.get('tree'):
+                add('C02:agree', c, '')
+            else:
+                add('C02:tree-differs', c, 'impl=' + fields.get('tree', '') + ' ref=' + rr[3:])
+        else:
+            add('C02:ref-' + rr.replace(' ', '-'), c, 'impl=' + fields.get('tree', ''))
+    if build and need_build:
+        # does `build` accept an improper tree? (cyclic ones hang: short deadline)
+        rows = [['BUILD', c[1], 'simple', '0'] + c[2:] for c in need_build[:400]]
+        b = vlib.run_impl(rows, 'treesbuild', per_case_s=1.0)
+        for c in need_build[:400]:
+            add('C04:improper/build=' + b.get(c[1], '?').split(' ')[0].split('\t')[0], c, '')
+    return classes
 
 
 def analyse(result, case=None):
@@ -424,13 +490,41 @@ def main():
     ap.add_argument('--tier', default='quick')
     ap.add_argument('--streams', default='')
     ap.add_argument('--show', type=int, default=20)
+    ap.add_argument('--examples-n', dest='examples_n', type=int, default=3)
+    ap.add_argument('--drv', default='', help='path of the Lean driver binary (default: the lake build of /verif/lean)')
+    ap.add_argument('--trees', action='store_true', help='C04 / C02 checks on accepted inputs instead of the PARSE comparison')
     ap.add_argument('--errclass', action='store_true', help='compare the error class (syntax / implementation) as well')
+    ap.add_argument('--tokidx', action='store_true', help='PARSE comparison in `!tokidx` mode (nodes carry @<token position>)')
     ap.add_argument('--examples', action='store_true', help='print the shortest token list of every result class')
     a = ap.parse_args()
+    if a.drv:
+        vlib.DRV = a.drv
+    if a.trees:
+        cases = gen_wellformed(a.seed, a.tier)
+        classes = check_trees(cases)
+        print(f'accepted inputs={len(cases)} seed={a.seed} tier={a.tier}')
+        for k in sorted(classes):
+            items = classes[k]
+            per = {}
+            for c, _ in items:
+                per[c[1][0]] = per.get(c[1][0], 0) + 1
+            print(f'  {k}: {len(items)} {per}')
+            seen = set()
+            for c, detail in sorted(items, key=lambda x: len(x[0])):
+                sig = tuple(f.split(',', 1)[0] for f in c[2:] if not f.startswith('Whitespace,'))
+                if sig in seen:
+                    continue
+                seen.add(sig)
+                print(f'      {" ".join(c[2:])}   {detail[:a.show * 30]}')
+                if len(seen) >= a.examples_n:
+                    break
+        return
     t0 = time.time()
     cases = gen_cases(a.seed, a.tier, set(a.streams) if a.streams else None)
     if a.errclass:
         cases = [c[:2] + ['!errclass'] + c[2:] for c in cases]
+    if a.tokidx:
+        cases = [c[:2] + ['!tokidx'] + c[2:] for c in cases]
     t1 = time.time()
     impl = vlib.run_impl(cases, 'parse')
     t2 = time.time()
